@@ -170,7 +170,13 @@ func determinism(args []string) {
 			if setup(ctx, e5, sib) {
 				_, _ = analyze(ctx, e5, 1)
 				if e5.TakeBack(ctx) == nil && e5.Move(ctx, c.game.moves[n-1]) == nil {
-					run(e5, c, "after-takeback-of-sibling", false)
+					// a take-back makes the board forget a draw declared earlier in the line (the result is
+					// sticky on the way down, reset on the way back): then the game states differ and so
+					// may the searches. Compare only when the reported result is the same.
+					ref, _ := ucih.Build(ctx, c.spec)
+					if setup(ctx, ref, c.game) && ref.Board().Result() == e5.Board().Result() {
+						run(e5, c, "after-takeback-of-sibling", false)
+					}
 				}
 			}
 		}
